@@ -162,6 +162,13 @@ def check_activation(w, r):
                 alias = (evs[i], pa, a0[1])
         if len(sp) > 1:
             bad = bad or (pa, 'several departures in one activation')
+        # ... and it departs WHENEVER items are waiting after the wake-up: both reasons to wake (delay over, capacity reached) are reasons to leave, and
+        # re-deriving them (`now - armed_at >= delay` in floating point, `activate_fleet.triggered`) can only lose a departure
+        waiting = any(c.kind == 'cond' and not c.d.get('synthetic') and c.text == 'self.items' and c.polarity is True for c in evs)
+        if waiting and not sp:
+            extra = [c.text for c in evs if c.kind == 'cond' and not c.d.get('synthetic') and c.text not in ('self.items', 'self.activate_fleet.triggered')]
+            bad = bad or (pa, f'items are waiting after the wake-up but the fleet does not depart on this path (extra condition(s) {extra[:3]}): a loaded item can '
+                              f'wait longer than one delay period plus one round trip')
         # R5 advisory: triggered event re-armed
         trig = [c for c in evs if c.kind == 'cond' and not c.d.get('synthetic') and c.text == 'self.activate_fleet.triggered']
         rearm = any(e.kind == 'setattr' and e.target == 'self.activate_fleet' and e.value[0] == 'newevent' for e in evs)
